@@ -289,14 +289,14 @@ theorem evalList_vars (ρ' : Sem.Env) (w' : World) : ∀ (args' : List Expr) (ys
     simp only [varNames?, Option.some.injEq] at h
     subst h
     obtain ⟨m', rfl⟩ : ∃ m', m = m' + 1 := ⟨m - 1, by omega⟩
-    rw [evalList_nil]; rfl
+    rw [evalList_nil_at]; rfl
   | cons e es ih =>
     intro ys h m hm
     obtain ⟨y, t, ys0, rfl, rfl, h0⟩ := varNames_cons_inv h
     simp only [List.length_cons] at hm
     obtain ⟨m', rfl⟩ : ∃ m', m = m' + 1 := ⟨m - 1, by omega⟩
     obtain ⟨m'', rfl⟩ : ∃ m'', m' = m'' + 1 := ⟨m' - 1, by omega⟩
-    rw [evalList_cons, eval_var, Res.andThen_ok, ih ys0 h0 (m'' + 1) (by omega)]
+    rw [evalList_cons_at, eval_var, Res.andThen_ok, ih ys0 h0 (m'' + 1) (by omega)]
     rfl
 
 theorem CapRel_of_envRel {Γ : SEnv} {S T : List String} {ρ ρ' : Sem.Env} (hρ : EnvRel P P' Γ S T ρ ρ') :
@@ -431,7 +431,7 @@ theorem sim_call (hp : ProgRel P P') {n : Nat} (ih : SimAt P P' n) (t : Ty) (f :
       have htgt : ∀ m, eval (m + 3) P' ρ' w' (.call t' (.var (applyFnName n0) tg) (.var x tx' :: rest)) =
           (evalList (m + 1) P' ρ' w' rest).andThen (fun vs w => apply (m + 2) P' w (.fn (applyFnName n0)) (.structV n0 cvs :: vs)) := by
         intro m
-        rw [eval_call, eval_var, Res.andThen_ok, evalList_cons, eval_var, Res.andThen_ok]
+        rw [eval_call, eval_var, Res.andThen_ok, evalList_cons_at, eval_var, Res.andThen_ok]
         have h1 : (lookupEnv ρ' (applyFnName n0)).getD (Val.fn (applyFnName n0)) = .fn (applyFnName n0) := by
           rw [hρ.tgt _ hgT]; rfl
         have h2 : (lookupEnv ρ' x).getD (Val.fn x) = .structV n0 cvs := hcv
